@@ -12,7 +12,9 @@
   * orchestrator  `spawnBegin kinds` — `operator_blocked = await make_toggle("orchestration blocker")`
                   `spawn r`          — `[resource_indexed = await make_toggle(name=what)]`, watcher task created
                   `spawnEnd`         — `await drop_toggle(operator_blocked)`
-  * watcher r     `check r o on`     — first event of object `o` without a stream, watcher still gating:
+  * watcher r     `die r`            — the watcher task of r ends (exception / cancellation), its scheduler
+                                       closes its workers; nobody drops their toggles any more
+                  `check r o on`     — first event of object `o` without a stream, watcher still gating:
                                        `if operator_indexed.is_on(): operator_indexed = None`
                                        (`on` = what `is_on()` returned; the following
                                        `await make_toggle` may suspend, so this is its own label)
@@ -30,10 +32,16 @@
                   `finish`, `again`, `exit` — end of the cycle, next event of the same worker, idle exit
 
   `spawn_missing_watchers` may run any number of times (`spawnBegin` whenever no batch is in
-  progress): kinds discovered later get their own blocker and per-kind toggles. The property's
-  "every indexed resource kind … once" is about the FIRST batch (`first`, `firstDone`, `Ready1`);
-  `Ready` is the stronger momentary fact about every kind spawned so far, which holds whenever a
-  waiter passes. Not modelled: a watcher that died and is spawned again under the same kind.
+  progress), also with nothing to spawn: the real start-up of a namespaced operator begins with
+  an EMPTY batch (no namespaces known yet), the kinds come with the second one. A "kind" of this
+  model is one watcher: a (resource, namespace) pair. The property's "every indexed resource
+  kind … once" is about the START-UP kinds: those spawned before anybody has seen the set on
+  (`first`, `Ready1`) — kinds discovered after that do not close the gate again for watchers that
+  have seen it open (by design: "NOT when the readiness is already achieved once"; finding C17-F4).
+  `Ready` is the stronger momentary fact about every kind spawned so far; it holds whenever a
+  waiter passes. A watcher task may end (`die r`: its LIST answered 404, it was cancelled because
+  its namespace vanished, …): its workers are closed with it, every toggle they still hold stays in
+  the set for good (`leaked`, `leakedK`); the kind may be spawned again by a later batch.
 
   `Bug` selects deliberately broken variants, used only for non-vacuity witnesses.
 -/
@@ -75,22 +83,22 @@ structure GState (R O : Type) where
   indexedOnce : List (R × O)      -- objects whose `index_resource` completed at least once
   everOn : Bool                   -- somebody has observed the set to be on
   handled : Bool                  -- some worker has reached the handlers
-  first : List R                  -- indexed kinds spawned by the first batch (the start-up)
-  firstDone : Bool                -- the first batch has dropped its blocker
+  first : List R                  -- start-up kinds: indexed kinds spawned before anybody saw the set on
   wlist : List (R × O)            -- every object that ever got a worker (to enumerate `workers`)
   leaked : List (R × O)           -- per-object toggles still in the set whose worker has exited: nobody can drop them
-  failed : Bool                   -- (history) some indexing cycle has ended without reaching `drop_toggle`
+  leakedK : List R                -- per-kind toggles still in the set whose watcher has ended
 
 def GState.init {R O : Type} : GState R O :=
   { started := false, spawning := false, blocker := false, pending := [], spawned := [],
     resTog := [], objTog := [], listed := [], detached := [], checked := [], workers := fun _ => none,
     listing := [], indexedOnce := [], everOn := false, handled := false,
-    first := [], firstDone := false, wlist := [], leaked := [], failed := false }
+    first := [], wlist := [], leaked := [], leakedK := [] }
 
 inductive Label (R O : Type) where
   | spawnBegin (kinds : List (R × Bool))
   | spawn (r : R)
   | spawnEnd
+  | die (r : R)
   | check (r : R) (o : O) (on : Bool)                 -- `on` as observed
   | arrive (r : R) (o : O) (gated hasToggle : Bool)   -- flags as observed on the started worker
   | listed (r : R)
@@ -110,7 +118,7 @@ variable {R O : Type} [DecidableEq R] [DecidableEq O]
 
 /-- `ToggleSet(all).is_on()` -/
 def GState.isOn (s : GState R O) : Bool :=
-  !s.blocker && s.resTog.isEmpty && s.objTog.isEmpty && s.leaked.isEmpty
+  !s.blocker && s.resTog.isEmpty && s.objTog.isEmpty && s.leaked.isEmpty && s.leakedK.isEmpty
 
 def setPc (s : GState R O) (ro : R × O) (w : Worker) (pc : Pc) : GState R O :=
   { s with workers := upd s.workers ro (some { w with pc := pc }) }
@@ -142,12 +150,24 @@ def step (bug : Bug) (s : GState R O) : Label R O → Option (GState R O)
       if s.spawning && decide (r' = r) && (aget r s.spawned).isNone then
         some { s with pending := rest, spawned := s.spawned ++ [(r, ind)],
                       resTog := if ind && (bug != .noKindToggle) then sadd r s.resTog else s.resTog,
-                      first := if ind && !s.firstDone then sadd r s.first else s.first }
+                      first := if ind && !s.everOn then sadd r s.first else s.first }
       else none
   | .spawnEnd =>
     if s.spawning && s.pending.isEmpty then
-      some { s with spawning := false, blocker := false, firstDone := true }
+      some { s with spawning := false, blocker := false }
     else none
+  | .die r =>
+    match aget r s.spawned with
+    | some ind =>
+      some { s with spawned := adel r s.spawned,
+                    resTog := sdel r s.resTog,
+                    leakedK := if ind && decide (r ∈ s.resTog) then r :: s.leakedK else s.leakedK,
+                    detached := sdel r s.detached,
+                    checked := s.checked.filter (fun ro => !decide (ro.1 = r)),
+                    objTog := s.objTog.filter (fun ro => !decide (ro.1 = r)),
+                    leaked := s.objTog.filter (fun ro => decide (ro.1 = r)) ++ s.leaked,
+                    workers := fun ro => if ro.1 = r then none else s.workers ro }
+    | none => none
   | .check r o on =>
     match aget r s.spawned with
     | some _ =>
@@ -193,7 +213,7 @@ def step (bug : Bug) (s : GState R O) : Label R O → Option (GState R O)
   | .indexFail r o =>
     match s.workers (r, o) with
     | some w =>
-      if w.pc = .queued then some { setPc s (r, o) w .idle with failed := true } else none
+      if w.pc = .queued then some (setPc s (r, o) w .idle) else none
     | none => none
   | .drop r o =>
     match s.workers (r, o) with
@@ -254,16 +274,24 @@ def Ready (s : GState R O) : Prop :=
   (∀ r, aget r s.spawned = some true → r ∈ s.listed) ∧
   (∀ ro, ro ∈ s.listing → ro ∈ s.indexedOnce)
 
-/-- The property's right-hand side proper: the FIRST batch (the start-up) is complete, each of its
-    indexed kinds has delivered LISTED, and every object of those initial listings has been through
-    `index_resource`. Stable: once true it stays true, also when later batches re-close the gate. -/
+/-- The property's right-hand side proper: every START-UP kind (indexed, spawned before anybody saw
+    the set on — in the real start-ups: every kind of the first non-empty batch) has delivered
+    LISTED, and every object of those initial listings has been through `index_resource`.
+    Stable: once true it stays true, also when later batches re-close the gate. -/
 def Ready1 (s : GState R O) : Prop :=
-  s.firstDone = true ∧ (∀ r, r ∈ s.first → r ∈ s.listed) ∧
+  (∀ r, r ∈ s.first → r ∈ s.listed) ∧
   (∀ ro, ro ∈ s.listing → ro.1 ∈ s.first → ro ∈ s.indexedOnce)
 
 def ready1B (s : GState R O) : Bool :=
-  s.firstDone && s.first.all (fun r => decide (r ∈ s.listed)) &&
+  s.first.all (fun r => decide (r ∈ s.listed)) &&
   s.listing.all (fun ro => !decide (ro.1 ∈ s.first) || decide (ro ∈ s.indexedOnce))
+
+/-- No toggle is stranded: nothing leaked, and every per-object toggle in the set belongs to a live
+    worker that is on its way to `drop_toggle` (its `index_resource` is running or has returned). -/
+def Healthy (s : GState R O) : Prop :=
+  s.leaked = [] ∧ s.leakedK = [] ∧
+  ∀ ro, ro ∈ s.objTog → ∃ w, s.workers ro = some w ∧ (w.pc = .queued ∨ w.pc = .indexed) ∧
+    w.gated = true ∧ w.hasToggle = true
 
 /-- the gate is open and every worker is past it -/
 def Open (s : GState R O) : Prop :=
